@@ -515,6 +515,7 @@ pub fn check_c13_sync(case: &Case, hint: Option<Hint>, depth: usize, with_cancel
         }
         frontier = next;
     }
+    acc.sample(|| json!({"universe": case.u.describe(&case.p), "problem_alphabet": alphabet, "histories": seqs.len(), "fresh_solver_results": fresh.iter().map(|o| o.short()).collect::<Vec<_>>()}));
     for seq in seqs {
         // variants: no cancellation, or call i (not the last) cancelled at poll k
         let mut variants: Vec<Option<(usize, u32)>> = vec![None];
